@@ -218,16 +218,33 @@ def check_binop(mod, R, cname, name, fn):
         if wrap is None:
             raise AnalysisError('%s returns through an unmodelled wrapper: %s' % (key, u(ret)))
         e = ret.args[0]
-        if not isinstance(e, ast.BinOp):
-            raise AnalysisError('%s wraps a non-binary expression: %s' % (key, u(e)))
         is_mod = [pol for t, pol in p.conds if is_isinstance_moduint(t, y)]
-        others = [t for t, pol in p.conds if not is_isinstance_moduint(t, y)]
-        if others or len(is_mod) != 1:
+        others = [(t, pol) for t, pol in p.conds if not is_isinstance_moduint(t, y)]
+        if len(is_mod) != 1:
             raise AnalysisError('%s has an unmodelled branch structure' % key)
         ymod = is_mod[0]
         want_l, want_r = ('self.arg', y + '.arg' if ymod else y)
         if reflected:
             want_l, want_r = want_r, want_l
+        if others:
+            # the only extra branch in the template family: a left shift whose count is at least the width of the result class
+            # gives 0 (exact: (a << n) mod 2^size == 0 for n >= size) without building the shifted integer
+            cls_txt = u(ret.func)
+            good_guard = (opname == 'lshift' and len(others) == 1 and isinstance(others[0][0], ast.Compare) and len(others[0][0].ops) == 1
+                          and isinstance(others[0][0].ops[0], ast.GtE) and u(others[0][0].left) == want_r and u(others[0][0].comparators[0]) == cls_txt + '.size')
+            if not good_guard:
+                raise AnalysisError('%s has an unmodelled branch structure: %s' % (key, [u(t) for t, _ in others]))
+            if others[0][1]:
+                if isinstance(e, ast.Constant) and e.value == 0:
+                    if (ymod and wrap == 'max:' + y) or (not ymod and wrap == 'self'):
+                        R.ok(inst, sample='%s [%s] -> %s (count >= width: every bit shifted out)' % (key, desc, u(ret)))
+                    else:
+                        R.violation(inst, key + ':wrapper:' + u(ret.func), 'the zero result of %s is not of the result class' % name, where(mod, fn))
+                else:
+                    R.violation(inst, key + ':' + u(e), '%s returns %s for a count >= the width, expected 0' % (name, u(e)), where(mod, fn))
+                continue
+        if not isinstance(e, ast.BinOp):
+            raise AnalysisError('%s wraps a non-binary expression: %s' % (key, u(e)))
         if type(e.op) is not pyop:
             R.violation(inst, key + ':' + u(e), '%s computes %s instead of %s' %
                         (name, OPNAME.get(type(e.op), type(e.op).__name__), OPNAME[pyop]), where(mod, fn))
@@ -247,6 +264,10 @@ def check_binop(mod, R, cname, name, fn):
         if not ymod and wrap != 'self':
             R.violation(inst, key + ':wrapper:' + u(ret.func),
                         'plain-integer operand in %s must keep the fixed-width type' % name, where(mod, fn))
+            continue
+        if opname == 'lshift' and not others:
+            R.violation(inst + ':bound', key + ':unbounded-count', '%s computes %s for any count: a count of 2^64-1 (in range for a 64-bit operand) asks for an integer of 2^64 bits '
+                        '(MemoryError / OverflowError) although the result is 0' % (name, u(e)), where(mod, fn), witness='uint64(1) << uint64(2**64-1) raises MemoryError')
             continue
         R.ok(inst, sample='%s [%s] -> %s' % (key, desc, u(ret)))
 
@@ -415,13 +436,38 @@ def run(ctx, report):
                 else:
                     R4.violation('%s.%s' % (cname, name), '%s.%s' % (cname, name), '__bool__ is not (self.arg != 0): %s' % [u(p.ret) for p in ps], where(mod, fn))
             elif name == '__pow__':
-                ps = return_paths(fn)
+                ps = [p for p in return_paths(fn) if not p.raised]
                 v = fn.args.args[1].arg
-                if len(ps) == 1 and u(ps[0].ret) in ('self.__class__(self.arg ** %s)' % v,):
-                    R4.ok('%s.%s' % (cname, name), sample='__pow__ -> %s' % u(ps[0].ret))
-                else:
-                    R4.violation('%s.%s' % (cname, name), '%s.%s' % (cname, name),
-                                 '__pow__ is not self.__class__(self.arg ** v): %s' % [u(p.ret) for p in ps], where(mod, fn))
+                key = '%s.%s' % (cname, name)
+                for p in ps:
+                    ismod = [pol for t, pol in p.conds if is_isinstance_moduint(t, v)]
+                    desc = ' and '.join(('' if pol else 'not ') + u(t) for t, pol in p.conds) or 'always'
+                    inst = '%s[%s]' % (key, desc)
+                    ret = p.ret
+                    wrap = classify_wrapper(ret) if isinstance(ret, ast.Call) and len(ret.args) == 1 else None
+                    if wrap is None:
+                        R4.violation(inst, key + ':' + u(ret), '__pow__ returns %s, not a fixed-width value' % u(ret), where(mod, fn))
+                        continue
+                    ymod = bool(ismod and ismod[0])
+                    expo = (v + '.arg') if ymod else v
+                    cls_txt = u(ret.func)
+                    e = ret.args[0]
+                    exact = u(e) == 'self.arg ** %s' % expo
+                    modular = u(e).replace(' ', '') == 'pow(self.arg,%s,%s.limit)' % (expo, cls_txt)
+                    if not (exact or modular):
+                        R4.violation(inst, key + ':' + u(e), '__pow__ computes %s, neither self.arg ** %s nor pow(self.arg, %s, limit)' % (u(e), expo, expo), where(mod, fn))
+                    elif exact:
+                        R4.violation(inst, key + ':exact-power', '__pow__ computes the exact power %s before reducing it: an exponent in range for the type (2^64-1) never returns' % u(e),
+                                     where(mod, fn), witness='uint64(3) ** uint64(2**64-1)')
+                    elif (ymod and wrap != 'max:' + v) or (not ymod and ismod and wrap != 'self'):
+                        R4.violation(inst, key + ':wrapper:' + cls_txt, '__pow__ with a fixed-width exponent is not cast to the wider class', where(mod, fn), witness='uint8(2) ** uint16(9) == uint8(0)')
+                    elif not ismod:
+                        R4.violation(inst, key + ':no-width-dispatch', '__pow__ does not look at the class of its exponent: a wider fixed-width exponent does not widen the result',
+                                     where(mod, fn), witness='uint8(2) ** uint16(9) == uint8(0)')
+                    else:
+                        R4.ok(inst, sample='__pow__ [%s] -> %s' % (desc, u(ret)))
+                if not ps:
+                    raise AnalysisError('__pow__ has no returning path')
             elif name == '__rpow__':
                 ps = return_paths(fn)
                 v = fn.args.args[1].arg
@@ -441,6 +487,8 @@ def run(ctx, report):
 
 
 MUTANTS = [
+    ('lshift-unbounded', 'miasmx/tools/modint.py', "        if y >= cls.size:\n            # every bit is shifted out (do not build the huge intermediate)\n            return cls(0)\n", "", 'C14.op'),
+    ('pow-exact', 'miasmx/tools/modint.py', "        return cls(pow(self.arg, v, cls.limit))", "        return cls(self.arg ** v)", 'C14.op'),
     ('sub-via-add-neg', 'miasmx/tools/modint.py', "    def __sub__(self, y):\n", "    def __sub__(self, y):\n        return self.__add__(-y)\n", 'C14.op'),
     ('rsub-order', 'miasmx/tools/modint.py', 'return self.__class__(y - self.arg)', 'return self.__class__(self.arg - y)', 'C14.op'),
     ('ctor-no-mod', 'miasmx/tools/modint.py', 'self.arg = int(arg)%self.__class__.limit', 'self.arg = int(arg)', 'C14.ctor'),
@@ -450,7 +498,7 @@ MUTANTS = [
     ('limit-off', 'miasmx/tools/modint.py', 'class uint16(moduint):\n    size = 16\n    limit = one<<size', 'class uint16(moduint):\n    size = 16\n    limit = one<<15', 'C14.width'),
     ('ge-wrong', 'miasmx/tools/modint.py', 'return not (self<y)', 'return not (self==y or self<y)', 'C14.op'),
     ('unwrap-and', 'miasmx/tools/modint.py', 'return self.__class__(self.arg & y)', 'return self.arg & y', 'C14.op'),
-    ('lshift-selfcls', 'miasmx/tools/modint.py', 'return cls(self.arg << y.arg)', 'return self.__class__(self.arg << y.arg)', 'C14.op'),
+    ('lshift-selfcls', 'miasmx/tools/modint.py', '            return cls(0)\n        return cls(self.arg << y)', '            return cls(0)\n        return self.__class__(self.arg << y)', 'C14.op'),
     ('neg-unwrapped', 'miasmx/tools/modint.py', 'return self.__class__(-self.arg)', 'return -self.arg', 'C14.op'),
     ('hash-id', 'miasmx/tools/modint.py', 'return hash(self.arg)', 'return hash((self.__class__.__name__, self.arg))', 'C14.op'),
 ]
